@@ -23,6 +23,13 @@ from vf.ref import structcodec as refstruct
 from vf.ref import tlv8 as reftlv
 
 
+
+def _raising_listener():
+    def bad(ev):
+        raise RuntimeError("a consumer's callback fails")
+
+    return bad
+
 def nonce(counter: int) -> bytes:
     return b"\x00\x00\x00\x00" + struct.pack("<Q", counter)
 
@@ -329,7 +336,11 @@ async def c13_part(ctx) -> None:
         pairing = CoAPPairing(controller, acc.pairing_data())
         await asyncio.wait_for(pairing.list_accessories_and_characteristics(), 60)
         notes = []
+        # other consumers share the pairing: some of them raise in their callbacks (before and after the one judged here)
+        for _ in range(2):
+            pairing.dispatcher_connect(_raising_listener())
         pairing.dispatcher_connect(lambda ev: notes.append(ev) if ev else None)
+        pairing.dispatcher_connect(_raising_listener())
         def fold_back(ev, pairing=pairing):
             # a realistic consumer (Home Assistant does this): fold every notified change into the pairing's model, so a later
             # write of the value the model already holds is still a write the accessory accepted
